@@ -125,7 +125,9 @@ fn draw_type(ctx: &mut Ctx, k: &Knobs) -> u8 {
     match k.type_mode {
         0 => 9,
         1 => *ctx.ch.pick("op.arg.type", &[9u8, 8]),
-        2 => *ctx.ch.pick("op.arg.type", &[9u8, 8, 18, 20, 4, 22, 3, 15]),
+        // includes every pair of type ids that share one of the library's chunk streams
+        // (1-6 -> 2, 18/19 -> 3, everything else but 8/9 -> 6)
+        2 => *ctx.ch.pick("op.arg.type", &[9u8, 8, 18, 19, 20, 17, 15, 22, 4, 3, 2, 5, 6]),
         _ => ctx.ch.draw("op.arg.type", 256) as u8,
     }
 }
@@ -218,7 +220,7 @@ fn draw_len(ctx: &mut Ctx, k: &Knobs, chunk: u32) -> usize {
         }
     };
     // bound the chunk count per message (documented exploration bound)
-    let max_len = c.saturating_mul(20_000).min(16_777_215);
+    let max_len = c.saturating_mul(70_000).min(16_777_215);
     len.min(max_len) as usize
 }
 
@@ -228,6 +230,8 @@ pub struct Sender {
     pub script: Script,
     /// per csid class: (last ts, last delta)
     last: [(u32, u32); 7],
+    /// per csid class: length of the previous message
+    last_len: [Option<usize>; 7],
 }
 
 impl Sender {
@@ -241,6 +245,7 @@ impl Sender {
                 refused: 0,
             },
             last: [(0, 0); 7],
+            last_len: [None; 7],
         }
     }
 
@@ -407,6 +412,12 @@ impl Sender {
                 let (pt, pd) = self.last[cls];
                 let ts = draw_ts(ctx, k, pt, pd);
                 let mut len = draw_len(ctx, k, self.chunk);
+                // coincidence: same length as the previous message on this chunk stream
+                if let Some(pl) = self.last_len[cls] {
+                    if ctx.ch.chance("op.arg.samelen", 1, 4) {
+                        len = pl;
+                    }
+                }
                 let over = mode == AMode::C19 && ctx.ch.chance("op.arg.over", 1, 60);
                 if over {
                     len = 16_777_216 + ctx.ch.draw("op.arg.overn", 3) as usize;
@@ -422,6 +433,23 @@ impl Sender {
                         expand_bytes(seed, len)
                     } else {
                         self.chunk.to_be_bytes().to_vec()
+                    }
+                } else if (2..=6).contains(&type_id) && !over && ctx.ch.chance("op.arg.semantic", 1, 2) {
+                    // well-formed protocol control bodies with meaningful values: an Abort naming a
+                    // chunk stream in use, acknowledgement / window values, user control events
+                    let v = *ctx.ch.pick("op.arg.ctlv", &[2u32, 3, 4, 5, 6, 0, 1, 7, 0x7FFF_FFFF, 0xFFFF_FFFF]);
+                    match type_id {
+                        4 => {
+                            let mut b = vec![0u8, *ctx.ch.pick("op.arg.evt", &[0u8, 1, 2, 4, 6, 7])];
+                            b.extend_from_slice(&v.to_be_bytes());
+                            b
+                        }
+                        6 => {
+                            let mut b = v.to_be_bytes().to_vec();
+                            b.push(ctx.ch.draw("op.arg.bwlimit", 3) as u8);
+                            b
+                        }
+                        _ => v.to_be_bytes().to_vec(),
                     }
                 } else {
                     expand_bytes(seed, len)
@@ -466,6 +494,7 @@ impl Sender {
                             ));
                         }
                         self.last[cls] = (ts, ts.wrapping_sub(pt));
+                        self.last_len[cls] = Some(m.payload.len());
                         if m.payload.is_empty() {
                             ctx.probe("a.zero_len_msg");
                         }
